@@ -63,6 +63,20 @@ def _assign_str(e, env):
     return '%s = %s' % (tgt, canon(e['ch'][1], env))
 
 
+def _bind_params(pats, env):
+    """closure parameters and `for` patterns are named by position: a0, a1 .. at depth 0,
+    b0 .. one level deeper (a loop body is the body of its `for_each` closure)"""
+    d = env.get('__cdepth__', 0)
+    env['__cdepth__'] = d + 1
+    names = []
+    for p in pats:
+        for b in _pat_binds(p):
+            nm = '%s%d' % ('abcdefgh'[min(d, 7)], len(names))
+            env[b['local']] = nm
+            names.append(nm)
+    return names
+
+
 def _keep_name(env, local):
     """name of a kept let: forced by the caller through env['__names__'] (role detection on
     the HIR) or positional"""
@@ -268,14 +282,7 @@ def canon(e, env):
     if k == 'Closure':
         # closure parameters are named by position (a0, a1 .. at depth 0, b0 .. inside)
         env2 = dict(env)
-        d = env.get('__cdepth__', 0)
-        env2['__cdepth__'] = d + 1
-        names = []
-        for p in e.get('params', []):
-            for b in _pat_binds(p):
-                nm = '%s%d' % ('abcdefgh'[min(d, 7)], len(names))
-                env2[b['local']] = nm
-                names.append(nm)
+        names = _bind_params(e.get('params', []), env2)
         return '|%s| %s' % (', '.join(names), canon(e['ch'][0], env2))
     t = try_operand(e)
     if t is not None:
@@ -361,9 +368,8 @@ def canon(e, env):
         return 'return ' + ' '.join(canon(x, env) for x in e.get('ch', []))
     if k in ('For',):
         en = dict(env)
-        pt = pat_canon(e['pat'], en)
-        return 'for %s in %s { %s }' % (', '.join(en[b['local']] for b in _pat_binds(e['pat'])) or pt,
-                                        canon(e['ch'][0], env), canon(e['ch'][1], en))
+        names = _bind_params([e['pat']], en)
+        return 'for %s in %s { %s }' % (', '.join(names) or '_', canon(e['ch'][0], env), canon(e['ch'][1], en))
     if k == 'While':
         return 'while %s { %s }' % (canon(e['ch'][0], env), canon(e['ch'][1], env))
     if k == 'Loop':
@@ -812,7 +818,7 @@ def env_at(root, node, env=None):
         if k == 'For':
             if _contains(e['ch'][0], node):
                 return rec(e['ch'][0])
-            pat_canon(e['pat'], env)
+            _bind_params([e['pat']], env)
             return rec(e['ch'][1])
         for c in children(e):
             if _contains(c, node):
@@ -919,7 +925,7 @@ def guards_at(root, node, env=None):
             if _contains(e['ch'][0], node):
                 return rec(e['ch'][0], en)
             en = dict(en)
-            pat_canon(e['pat'], en)
+            _bind_params([e['pat']], en)
             return rec(e['ch'][1], en)
         for c in children(e):
             if _contains(c, node):
@@ -929,6 +935,15 @@ def guards_at(root, node, env=None):
     if en is None:
         return None
     return conds, en
+
+
+def body_table(root, node, env=None):
+    """Decision table of the body of a closure or of a `for` loop (the same thing after
+    `for_each` normalisation), parameters named a0, a1 .., captured locals named as at the
+    definition site."""
+    body = node['ch'][0] if node.get('k') == 'Closure' else node['ch'][1]
+    en = env_at(root, body, env)
+    return table(body, en)
 
 
 def closure_table(root, closure, env=None):
